@@ -128,6 +128,10 @@ def run(ctx):
     designs = [("pair-%s" % b, dict(backend=b, wfs=("pair",), jobs=4, env=2, faults=0, cmds=3, allow=ALLOW, interleave=True)) for b in ctx.q(["slurm_noacct", "lsf"], proj_check.BACKENDS)]
     n = ctx.q(60, 2000)
     gens = [(dict(backend=b, wfs=proj_check.WFS, jobs=12, env=3, faults=0, cmds=8, anyfs=True, allow=ALLOW), 26, n) for b in proj_check.BACKENDS]
+    # the real local worker pool, with restarts of the pool (tracked ids of an earlier pool)
+    gens += [(dict(backend="local", wfs=proj_check.WFS, jobs=12, env=3, faults=0, cmds=8, anyfs=True,
+                   allow=["Run", "Status", "JobFail", "Cancel", "DeleteOutput", "PoolRestart"]), 26, n)]
+    designs.append(("pair-local", dict(backend="local", wfs=("pair",), jobs=4, env=2, faults=0, cmds=3, allow=ALLOW + ["PoolRestart"], interleave=True)))
     proj_check.run(
         ctx, mine=MINE, designs=designs, gens=gens, relevant={"JobEnd", "Purge", "Cancel"},
         must_hit=("C08_state", "C08_id_roundtrip", "C08_no_sacct_when_disabled"),
